@@ -1000,7 +1000,7 @@ def check(run: core.Run) -> int:
     thorough = run.tier == "thorough"
 
     # ---- 1. unit correspondence: make_line_subs / get_paf_lines / score_paf_lines -------------
-    n_unit = 6000 if thorough else 600
+    n_unit = 6000 if thorough else 1000
     ucases = [gen_unit_case(rng) for _ in range(n_unit)]
     layouts = [(rng.randint(1, 4), rng.randint(1, 5), rng.randint(1, 3)) for _ in range(12 if thorough else 4)]
     terms = [unit_term(c) for c in ucases] + [f"CLayout {core.cz(h)} {core.cz(w)} {core.cz(E)}" for h, w, E in layouts]
@@ -1039,7 +1039,7 @@ def check(run: core.Run) -> int:
     n_corpus = replay_corpus(run, im)
 
     # ---- 3. end-to-end scenes ----------------------------------------------------------------
-    n_sc = 3000 if thorough else 150
+    n_sc = 3000 if thorough else 400
     scenes = [gen_scene(rng, thorough) for _ in range(n_sc)]
     results, premises, seps = [], [], []
     sterms, sindex, aterms, aindex = [], [], [], []
@@ -1049,9 +1049,12 @@ def check(run: core.Run) -> int:
         results.append(res)
         seps.append(ideal_separation(sc)[0])
         if "raises" in res:
-            premises.append((False, {"raised": res["raises"]}))
+            premises.append((False, {"raised": res["raises"], "tables": []}))
         else:
-            premises.append(measure_premise(sc, res))
+            try:
+                premises.append(measure_premise(sc, res))
+            except Exception as e:          # output so malformed that it cannot be analysed
+                premises.append((False, {"analysis_error": f"{type(e).__name__}: {e}", "tables": []}))
             for t in premises[-1][1]["tables"]:
                 aterms.append(alt1_term(t[0], t[1], t[2]))
                 aindex.append((si, t[3]))
@@ -1065,7 +1068,10 @@ def check(run: core.Run) -> int:
     amodel = smodel[len(sterms):]
     scene_diff = {}
     for (si, b), m in zip(sindex, smodel):
-        d = compare_scene(scenes[si], input_geometry(scenes[si]), b, m, results[si])
+        try:
+            d = compare_scene(scenes[si], input_geometry(scenes[si]), b, m, results[si])
+        except Exception as e:
+            d = f"frame {b}: output cannot be compared ({type(e).__name__}: {e})"
         if d and si not in scene_diff:
             scene_diff[si] = d
     a_bad = [(si, a1, m) for (si, a1), m in zip(aindex, amodel) if bool(m) != bool(a1)]
@@ -1093,11 +1099,17 @@ def check(run: core.Run) -> int:
             tmin = det["true_min"] if tmin is None else min(tmin, det["true_min"])
         if det.get("cross_max") is not None:
             cmax = det["cross_max"] if cmax is None else max(cmax, det["cross_max"])
-        bad = oracle(sc, res)
+        try:
+            bad = oracle(sc, res)
+        except Exception as e:
+            bad = f"output cannot be interpreted ({type(e).__name__}: {e})"
         sdiff = None
         if "raises" not in res:
-            sdiff, w = compare_scores(sc, g, res)
-            worst_score = max(worst_score, w)
+            try:
+                sdiff, w = compare_scores(sc, g, res)
+                worst_score = max(worst_score, w)
+            except Exception as e:
+                sdiff = f"scores cannot be compared ({type(e).__name__}: {e})"
         in_domain = sep or prem          # ideal separation holds, or the theorem's premise holds on the real scores
         if not in_domain:
             scene_diff.pop(si, None)     # not well-separated: the expected instances are not what the theorem promises
